@@ -129,6 +129,8 @@ impl Prop for C07 {
         }
         let outs: Vec<(&'static str, Result<String, String>)> = vec![
             ("to_string()", catch(|| d.to_string())),
+            ("ToString::to_string(&d)", catch(|| ToString::to_string(&d))),
+            ("(&d).to_string()", catch(|| (&d).to_string())),
             ("String::from(d)", catch(|| String::from(d))),
             ("format!(\"{}\")", catch(|| format!("{}", d))),
             ("Debug", catch(|| {
